@@ -95,11 +95,26 @@ func H_l3_longrun() {
 		p[i] = 'x'
 	}
 	P := string(p)
-	ta := vString("t", 1)
-	tb := vString("t", 1)
-	vAssume(vStrLt(ta, tb))
-	keys := []string{"a", P + ta, P + tb, "z"}
-	vals := []uint16{1, 2, 3, 4}
+	var keys []string
+	var vals []uint16
+	if vParamDef("fan", 2) <= 2 {
+		ta := vString("t", 1)
+		tb := vString("t", 1)
+		vAssume(vStrLt(ta, tb))
+		keys = []string{"a", P + ta, P + tb, "z"}
+		vals = []uint16{1, 2, 3, 4}
+	} else {
+		// the run ends at a 257-bit node: `fan` keys P + distinct byte + symbolic tail
+		fan := vParam("fan")
+		for i := 0; i < fan; i++ {
+			tail := "x"
+			if i == fan-1 {
+				tail = vString("t", 1) // one symbolic tail (more would fork per pair in the builder's prefix-count map)
+			}
+			keys = append(keys, P+string([]byte{byte(0x08 + i*0x0f)})+tail)
+			vals = append(vals, uint16(i+1))
+		}
+	}
 	st, err := NewSlimTrie(encode.U16{}, keys, vals, vOptCase(vParam("opt")))
 	if err != nil {
 		vAssert(st == nil, "C08.nil-trie")
